@@ -331,6 +331,9 @@ func (st *runState) client(sim *simrt.Sim, sys *System, ci int, c Client) {
 		if names := NodeNames(st.s.Cfg); len(names) > 1 && op.DSN > 0 {
 			req.Header.Set("X-CH-DSN", names[(op.DSN-1)%len(names)])
 		}
+		if op.Async != "" {
+			req.Header.Set("X-Async-Insert", op.Async)
+		}
 		if op.TTLHdr != "" {
 			req.Header.Set("X-Ttl-Days", op.TTLHdr)
 		}
